@@ -29,6 +29,14 @@ pub fn one_case(compact: bool, l: usize, first_mode: u64, ptr_mode: u64, cont_mo
             let mut pl = vec![0u8]; pl.extend_from_slice(&bad[..60]); pk(&mut m, true, &pl, rng);
             let c = rng.bytes(50); pk(&mut m, false, &c, rng);
         }
+        4 => { // an unfinished spanning section, THEN a section complete in one packet: the abandoned bytes must not survive it
+            let l0 = rng.range(200, 900) as usize; let s0 = mk_section(compact, l0, rng);
+            let k = rng.range(hdr as u64, 150) as usize;
+            let mut pl = vec![0u8]; pl.extend_from_slice(&s0[..k]); pk(&mut m, true, &pl, rng);
+            if rng.chance(1, 2) { let n = rng.range(1, 40) as usize; let c = rng.bytes(n); pk(&mut m, false, &c, rng); }
+            let l1 = rng.range(5, 100) as usize; let s1 = mk_section(compact, l1, rng);
+            let mut pl = vec![0u8]; pl.extend_from_slice(&s1); pk(&mut m, true, &pl, rng);
+        }
         3 => { // a complete section went through just before
             let s0 = mk_section(compact, rng.range(5, 100) as usize, rng);
             let mut pl = vec![0u8]; pl.extend_from_slice(&s0); pk(&mut m, true, &pl, rng);
@@ -92,13 +100,13 @@ pub fn gen(tier: &str, seed: u64, emit: &mut dyn FnMut(String)) {
         for &l in ls.iter() {
             let reps = if big { 16 } else { 4 };
             for r in 0..reps {
-                let (fm, pm, cm, pr) = if big { (rng.below(6), rng.below(6), rng.below(6), rng.below(4)) } else { ((l as u64 + r) % 6, (l as u64 / 6 + r) % 6, (l as u64 / 36 + r) % 6, (l as u64 + r) % 4) };
+                let (fm, pm, cm, pr) = if big { (rng.below(6), rng.below(6), rng.below(6), rng.below(5)) } else { ((l as u64 + r) % 6, (l as u64 / 6 + r) % 6, (l as u64 / 36 + r) % 6, (l as u64 + r) % 5) };
                 emit(one_case(compact, l, fm, pm, cm, pr, &mut rng));
             }
         }
         // the full cross product for a few boundary lengths
         for &l in [0usize, 1, 4, 5, 9, 172, 173, 174, 175, 180, 181, 182, 183, 184, 365, 1020, 1021, 1022].iter() {
-            for fm in 0..6 { for pm in 0..6 { for cm in 0..6 { for pr in 0..4 { emit(one_case(compact, l, fm, pm, cm, pr, &mut rng)); } } } }
+            for fm in 0..6 { for pm in 0..6 { for cm in 0..6 { for pr in 0..5 { emit(one_case(compact, l, fm, pm, cm, pr, &mut rng)); } } } }
         }
     }
 }
